@@ -656,6 +656,25 @@ def rule_radix_positional_counts(col, facts):
     args = [op_expr(f, a[0]) for bb, c, a, d, t in f.calls() if callee_name(c) == WF + "shared::min_exact_digits"]
     col.check("UNIT-zeros", "radix::write_float_nonscientific:min-counts-significant", bool(args) and all(any(last_seg(c[1]) == "ltrim_char_count" for c in expr_calls(a)) for a in args),
               "min_exact_digits is handed `%s`: the leading zeros of a value below one are counted as significant digits, so the padding to min_significant_digits stops short (radix 36, 0.25, min 3 -> `0.90`)" % (show(args[0])[:80] if args else "?"), f.loc())
+    # ... and the subtraction cannot underflow: the zero count is clamped (`min(.., count - 1)`) *after* the last
+    # change of the digit count (trailing zeros are trimmed in between; trimming all of them left fewer digits than
+    # leading zeros and `count - zeros` panicked in debug builds for values below radix^-231)
+    from rules.pipeline import reach_from
+    clamp_ok = False
+    for bb, c, a, d, t in f.calls():
+        if callee_name(c) != WF + "shared::min_exact_digits":
+            continue
+        e = strip_casts(op_expr(f, a[0]))
+        if e[0] == "bin" and e[1] == "Sub":
+            cnt, sub = strip_casts(e[2]), strip_casts(e[3])
+            if sub[0] == "call" and last_seg(sub[1]) == "min" and len(sub) > 3 and cnt[0] == "var":
+                mins = [b2 for b2, c2, a2, d2, t2 in f.calls() if d2 and d2[0] == sub[3] and not d2[1]]
+                if mins:
+                    after = reach_from(f, mins[0])
+                    later_defs = [bd for bd, _j, _rv, pr in f.defs().get(cnt[1], []) if not pr and bd in after and bd != mins[0]]
+                    clamp_ok = not later_defs and any(show(strip_casts(x)).startswith("(") and "Sub 1" in show(strip_casts(x)) for x in sub[2])
+    col.check("UNIT-zeros", "radix::write_float_nonscientific:clamp-after-last-count-change", clamp_ok,
+              "the leading-zero count subtracted from the digit count is not clamped to `count - 1` after the count's last change: when trimming removes more digits than there are leading zeros the subtraction underflows (debug panic for tiny values written positionally)", f.loc())
     # MPT-point
     n = 0
     bad = 0
